@@ -41,6 +41,7 @@ def implParts (res : String) : Option (List Char × List Char) :=
 def addrOp : List String → String
   | [s, res, env] =>
     if res == "PANIC" then propfail "panic" else
+    if res.startsWith "ctor-differs" then propfail s!"constructors-of-Address-disagree-on-the-same-string:{res}" else
     match hexChars? s, parseEnv env with
     | some cs, some e =>
       -- oracle on the implementation's own answer
